@@ -172,11 +172,46 @@ theorem sm3_layout_fixpoint (ps : List (List Nat)) :
     · cases h; rfl
     · cases h
 
-/-- Tearfree (Shampoo and Sketchy, every grafting / momentum option): the state layout after an update
-is the initial one -/
+/-- Tearfree (Shampoo and Sketchy incl. per-axis ranks from `memory_alloc`, every grafting / momentum
+option): the state layout after an update is the initial one -/
 theorem tearfree_layout_fixpoint (c : TFCfg) (ps : List (List Nat)) (L : TFLayout)
     (h : tfInit c ps = .ok L) : tfStep c L = .ok L :=
   tfStep_init c ps L h
+
+/-- ... and after any number of updates (induction over the history) -/
+theorem tearfree_layout_fixpoint_steps (c : TFCfg) (ps : List (List Nat)) (L : TFLayout) (k : Nat)
+    (h : tfInit c ps = .ok L) : tfSteps c k L = .ok L :=
+  tfSteps_init c ps L h k
+
+/-- **Tearfree: no internal error.** For every option set of the modelled space and every tree,
+constructor + `init` + `k` updates end in success or in an explanatory rejection: a `ValueError` of
+the option validation at construction, or of `shampoo.make_blocks` at `init` (more than two large
+dimensions); an update never fails. -/
+theorem tearfree_no_internal_error (c : TFCfg) (ps : List (List Nat)) (k : Nat) (e : Err)
+    (h : tfRun c ps k = .error e) :
+    e = .reject .construct .valueError ∨ e = .reject .init .valueError := by
+  unfold tfRun at h
+  simp only [bind, Except.bind] at h
+  cases hi : tfInit c ps with
+  | ok L => simp [hi, tfSteps_init c ps L hi k] at h
+  | error e' =>
+    simp [hi] at h
+    subst h
+    unfold tfInit at hi
+    simp only [bind, Except.bind] at hi
+    cases hv : tfValidate c with
+    | error e'' =>
+      simp [hv] at hi
+      subst hi
+      exact Or.inl (tfValidate_error c _ hv)
+    | ok u =>
+      cases hm : mapE (tfParam c) (tfInputs c ps) with
+      | ok l => simp [hv, hm, pure, Except.pure] at hi
+      | error e'' =>
+        simp [hv, hm] at hi
+        subst hi
+        obtain ⟨x, _, hx⟩ := mapE_error _ _ _ hm
+        exact Or.inr (tfParam_error c x _ (tfValidate_sk c hv) hx)
 
 /-! ### non-vacuity -/
 
@@ -205,6 +240,16 @@ def exSharded : Cfg :=
   { exCfg with shard := true, batchAxis := true, fd := false, avgGrad := false, fdMetrics := false, compRank := 0 }
 
 example : ∃ L, shardedInit exSharded [[6, 5], [7]] = .ok L := ⟨_, rfl⟩
+
+def exTF : TFCfg :=
+  { graft := .rmsprop, graftDecay := 1, graftEps := 0, skipGt := 4096, skipRank1 := true, minDimFactor := 128,
+    clipThreshold := 1, mergeDims := 2, sketchy := true, sh := none,
+    sk := some { rank := 2, updateFreq := 1, decay := 1, addGgt := true, ekfac := true,
+                 alloc := some [[3, 1], [1], [2, 2, 2]] },
+    momDecay := 1, ema := false, wd := 0, wdAfter := true, lrSched := false }
+
+/-- an accepted Sketchy configuration with `memory_alloc` rows, on a tree with a masked vector -/
+example : (tfInit exTF [[4, 3], [5], [2, 3, 2]]).toOption.isSome = true := by decide
 
 /-! ### negative witnesses (regression documentation of repaired defects) -/
 
